@@ -18,6 +18,9 @@ pub const I_NONE: usize = Instruments::NoInstruments.into();
 pub const I_LOGS: usize = Instruments::LogsWithoutMetrics.into();
 pub const I_METRICS: usize = Instruments::MetricsWithoutLogs.into();
 pub const I_BOTH: usize = Instruments::LogsWithMetrics.into();
+pub const I_CUSTOM_COUNTERS: usize = Instruments::Custom(1).into();
+pub const I_CUSTOM_COUNTERS_SATURATION: usize = Instruments::Custom(1 | 2).into();
+pub const I_EXPENSIVE: usize = Instruments::ExpensiveMetricsWithoutLogs.into();
 
 #[derive(Clone, Copy, Debug, PartialEq, Eq, Serialize, Deserialize)]
 pub enum ExecKind {
@@ -132,7 +135,7 @@ pub struct RawItem {
 pub struct RawParams {
     pub sched: SchedSpec,
     pub exec: ExecKind,
-    /// 0 none, 1 logs, 2 metrics, 3 logs+metrics
+    /// 0 none, 1 logs, 2 metrics, 3 logs+metrics, 4 Custom(COUNTERS), 5 Custom(COUNTERS | SATURATION), 6 expensive metrics
     pub instruments: u8,
     pub limit: u32,
     /// 0 = no futures timeout
@@ -439,7 +442,7 @@ impl Scenario for ExecRaw {
         RawParams {
             sched,
             exec,
-            instruments: rng.below(4) as u8,
+            instruments: rng.below(7) as u8,
             limit: 1 + rng.below(8) as u32,
             timeout_ms,
             items: draw_items(rng, exec, timeout_ms, max_items, unit_us),
@@ -463,7 +466,11 @@ impl Scenario for ExecRaw {
             0 => raw_run::<I_NONE>(&p2),
             1 => raw_run::<I_LOGS>(&p2),
             2 => raw_run::<I_METRICS>(&p2),
-            _ => raw_run::<I_BOTH>(&p2),
+            3 => raw_run::<I_BOTH>(&p2),
+            // custom sets: metrics switched on through the counters only / counters + saturation (no profiling bit)
+            4 => raw_run::<I_CUSTOM_COUNTERS>(&p2),
+            5 => raw_run::<I_CUSTOM_COUNTERS_SATURATION>(&p2),
+            _ => raw_run::<I_EXPENSIVE>(&p2),
         });
         out
     }
